@@ -852,7 +852,7 @@ impl Generator {
             invariant_except_break
                 result == value,
                 Generator::first_int(&self.mutators, vf_k as int, value, *source, self.mutation_rate)
-                    == Generator::first_int(&self.mutators, 0, value, *old(source), self.mutation_rate),
+                    == Generator::first_int(&self.mutators, 0, value, *old(source), self.mutation_rate), // @C15
             invariant vf_k <= vf_mutators_len_spec(&self.mutators),
             ensures
                 (result, *source) == Generator::first_int(&self.mutators, 0, value, *old(source), self.mutation_rate), // @C15
@@ -885,7 +885,7 @@ impl Generator {
             invariant_except_break
                 result == value,
                 Generator::first_float(&self.mutators, vf_k as int, value, *source, self.mutation_rate)
-                    == Generator::first_float(&self.mutators, 0, value, *old(source), self.mutation_rate),
+                    == Generator::first_float(&self.mutators, 0, value, *old(source), self.mutation_rate), // @C15
             invariant vf_k <= vf_mutators_len_spec(&self.mutators),
             ensures
                 (result, *source) == Generator::first_float(&self.mutators, 0, value, *old(source), self.mutation_rate), // @C15
@@ -918,7 +918,7 @@ impl Generator {
             invariant_except_break
                 result == index,
                 Generator::first_memo(&self.mutators, vf_k as int, index, *source, self.mutation_rate)
-                    == Generator::first_memo(&self.mutators, 0, index, *old(source), self.mutation_rate),
+                    == Generator::first_memo(&self.mutators, 0, index, *old(source), self.mutation_rate), // @C15
             invariant vf_k <= vf_mutators_len_spec(&self.mutators),
             ensures
                 (result, *source) == Generator::first_memo(&self.mutators, 0, index, *old(source), self.mutation_rate), // @C15
@@ -955,7 +955,7 @@ impl Generator {
             invariant_except_break
                 result@ == value@,
                 Generator::first_str(&self.mutators, vf_k as int, value@, *source, self.mutation_rate)
-                    == Generator::first_str(&self.mutators, 0, value@, *old(source), self.mutation_rate),
+                    == Generator::first_str(&self.mutators, 0, value@, *old(source), self.mutation_rate), // @C15
             invariant
                 vf_k <= vf_mutators_len_spec(&self.mutators),
             ensures
@@ -993,7 +993,7 @@ impl Generator {
             invariant_except_break
                 result@ == value@,
                 Generator::first_bytes(&self.mutators, vf_k as int, value@, *source, self.mutation_rate)
-                    == Generator::first_bytes(&self.mutators, 0, value@, *old(source), self.mutation_rate),
+                    == Generator::first_bytes(&self.mutators, 0, value@, *old(source), self.mutation_rate), // @C15
             invariant
                 vf_k <= vf_mutators_len_spec(&self.mutators),
             ensures
